@@ -186,7 +186,7 @@ def _fields_grid(tier, rng):
     for k in range(n):
         yield {"cat": rng.choice(cats), "desig": rng.randrange(len(desig)), "ndot": rng.choice(ndots), "ndotdot": rng.choice(drag), "bstar": rng.choice(drag),
                "e": rng.choice(es), "i": rng.choice(angs[:4]), "raan": rng.choice(angs), "argp": rng.choice(angs), "M": rng.choice(angs), "n": rng.choice(ns),
-               "elnb": rng.choice(elnbs), "rev": rng.choice(revs), "epoch": rng.randrange(len(epochs)), "name": k % 8, "cls": (0, 0, 0, 0, 1, 0, 0, 2, 0, 0)[k % 10]}
+               "elnb": rng.choice(elnbs), "rev": rng.choice(revs), "epoch": rng.randrange(len(epochs)), "name": k % 8, "cls": (0, 0, 0, 0, 1, 0, 0, 2, 0, 0)[k % 10], "zero": int(k % 7 == 3)}
 
 
 def _compose(a):
@@ -198,7 +198,8 @@ def _compose(a):
 
     def assumed(x):
         if x == 0:
-            return " 00000-0"
+            # the two spellings of a zero term found in distributed element sets
+            return " 00000+0" if a.get("zero") else " 00000-0"
         s = f"{abs(x):.4e}"
         mant, exp = s.split("e")
         return ("-" if x < 0 else " ") + mant.replace(".", "") + f"{int(exp) + 1:+d}"
@@ -221,7 +222,7 @@ def _(c):
     writing the parsed orbit back gives the identical two lines (and name line), each 69 characters with a correct check digit"""
     from beyond.io.tle import Tle
     a = {k: c.real(k) if k in ("ndot", "ndotdot", "bstar", "e", "i", "raan", "argp", "M", "n") else c.integer(k) for k in
-         ("cat", "desig", "ndot", "ndotdot", "bstar", "e", "i", "raan", "argp", "M", "n", "elnb", "rev", "epoch", "name", "cls")}
+         ("cat", "desig", "ndot", "ndotdot", "bstar", "e", "i", "raan", "argp", "M", "n", "elnb", "rev", "epoch", "name", "cls", "zero")}
     name, l1, l2 = _compose(a)
     c.require(len(l1) == 69 and len(l2) == 69)
     text = (name + "\n" if name else "") + l1 + "\n" + l2
